@@ -55,8 +55,8 @@ impl Profile {
             voters: vec![1, 2, 3],
             learners: vec![],
             steps: 600,
-            max_log: 14,
-            proposals: 10,
+            max_log: 20,
+            proposals: 16,
             conf_changes: 0,
             reads: 0,
             transfers: 0,
@@ -136,11 +136,12 @@ impl Profile {
             }
             "flow" => {
                 p.randomize_knobs = true;
-                p.proposals = 14;
+                p.proposals = 20;
                 p.w_drop = 5;
                 p.w_knob = 2;
                 p.w_batch = 2;
-                p.w_crash = 0;
+                p.w_crash = 1;
+                p.w_partition = 3;
             }
             "snap" => {
                 p.w_compact = 6;
@@ -152,8 +153,9 @@ impl Profile {
             "conf" => {
                 p.ids = vec![1, 2, 3, 4];
                 p.voters = vec![1, 2, 3];
-                p.conf_changes = 5;
+                p.conf_changes = 6;
                 p.w_compact = 2;
+                p.w_batch = 2;
                 p.steps = 900;
             }
             "joint" => {
@@ -187,8 +189,33 @@ impl Profile {
                 p.ids = vec![1, 2, 3, 4];
                 p.voters = vec![1, 2, 3];
                 p.learners = vec![4];
-                p.transfers = 8;
+                p.transfers = 10;
                 p.w_drop = 2;
+                p.w_dup = 4;
+                p.conf_changes = 3;
+                p.async_pct = 60;
+                p.steps = 800;
+            }
+            "readjoint" => {
+                p.ids = vec![1, 2, 3, 4];
+                p.voters = vec![1, 2, 3];
+                p.learners = vec![4];
+                p.reads = 14;
+                p.conf_changes = 5;
+                p.joint = true;
+                p.w_partition = 4;
+                p.w_crash = 0;
+                p.steps = 900;
+            }
+            "reelect" => {
+                p.ids = vec![1, 2, 3, 4, 5];
+                p.voters = vec![1, 2, 3, 4, 5];
+                p.w_partition = 8;
+                p.w_crash = 0;
+                p.w_campaign = 2;
+                p.async_pct = 60;
+                p.steps = 900;
+                p.max_down = 2;
             }
             "live" => {
                 p.stabilize_rounds = 60;
@@ -214,6 +241,7 @@ pub struct Sched {
     pub next_payload: u64,
     pub next_ctx: u64,
     pub async_mode: Vec<bool>,
+    pub tick_ptr: u64,
 }
 
 pub fn cluster_cfg(prof: &Profile, rng: &mut StdRng) -> ClusterCfg {
@@ -222,6 +250,7 @@ pub fn cluster_cfg(prof: &Profile, rng: &mut StdRng) -> ClusterCfg {
         let mut k = Knobs {
             pre_vote: prof.pre_vote,
             check_quorum: prof.check_quorum,
+            election_tick: 5,
             ..Default::default()
         };
         if prof.randomize_knobs {
@@ -273,6 +302,7 @@ impl Sched {
             blocked: vec![],
             next_payload: 1,
             next_ctx: 1,
+            tick_ptr: 0,
         };
         (s, cl)
     }
@@ -383,7 +413,7 @@ impl Sched {
                 Some(r) => r,
             };
             if p.w_crash > 0 && down < p.max_down {
-                cands.push((p.w_crash, Choice::Crash { n }));
+                cands.push((1, Choice::Crash { n }));
             }
             if !slot.app.pending.is_empty() {
                 let nums: Vec<u64> = slot.app.pending.iter().map(|b| b.number).collect();
@@ -557,8 +587,69 @@ impl Sched {
         if cands.is_empty() {
             return None;
         }
+        // two-level choice: first a category (so that no kind of step starves), then inside it by weight
+        let cat_of = |c: &Choice| -> usize {
+            match c {
+                Choice::Deliver { .. } | Choice::Drop { .. } => 0,
+                Choice::Ready { .. }
+                | Choice::ReadyForce { .. }
+                | Choice::Advance { .. }
+                | Choice::AdvanceAppend { .. }
+                | Choice::AdvanceAsync { .. }
+                | Choice::Fsync { .. }
+                | Choice::Notify { .. }
+                | Choice::Apply { .. }
+                | Choice::ReportSnap { .. } => 1,
+                Choice::Tick { .. } => 2,
+                Choice::Crash { .. } => 4,
+                Choice::Restart { .. } => 5,
+                _ => 3,
+            }
+        };
+        let has_leader = cl
+            .nodes
+            .iter()
+            .filter_map(|s| s.raw.as_ref())
+            .any(|r| r.raft.state == raft::StateRole::Leader);
+        let cat_w: [u32; 6] = [
+            500,
+            360,
+            if has_leader { 60 } else { 300 },
+            70,
+            p.w_crash * 2,
+            60,
+        ];
+        let mut present = [false; 6];
+        for (_, c) in &cands {
+            present[cat_of(c)] = true;
+        }
+        let total_c: u32 = (0..6).filter(|k| present[*k]).map(|k| cat_w[k]).sum();
+        let mut xc = self.rng.gen_range(0..total_c.max(1));
+        let mut cat = 0;
+        for k in 0..6 {
+            if !present[k] {
+                continue;
+            }
+            if xc < cat_w[k] {
+                cat = k;
+                break;
+            }
+            xc -= cat_w[k];
+            cat = k;
+        }
+        let mut cands: Vec<(u32, Choice)> = cands.into_iter().filter(|(_, c)| cat_of(c) == cat).collect();
+        if cat == 2 {
+            // nodes are ticked in rotation so that their clocks advance at the same rate
+            let ids: Vec<u64> = cands
+                .iter()
+                .filter_map(|(_, c)| if let Choice::Tick { n } = c { Some(*n) } else { None })
+                .collect();
+            let next = ids.iter().copied().find(|n| *n > self.tick_ptr).unwrap_or(ids[0]);
+            self.tick_ptr = next;
+            cands = vec![(1, Choice::Tick { n: next })];
+        }
         let total: u32 = cands.iter().map(|c| c.0).sum();
-        let mut x = self.rng.gen_range(0..total);
+        let mut x = self.rng.gen_range(0..total.max(1));
         let mut chosen = None;
         for (w, c) in cands {
             if x < w {
@@ -625,7 +716,7 @@ impl Sched {
 
     /// Fault-free stabilisation suffix: restart everything, heal, then run rounds of
     /// (tick every node; process all readies synchronously; deliver everything to quiescence).
-    pub fn stabilize(&mut self, cl: &mut Cluster, out: &mut Vec<Event>, rounds: usize) {
+    pub fn stabilize(&mut self, cl: &mut Cluster, out: &mut Vec<Event>, rounds: usize) -> bool {
         self.blocked.clear();
         let ids = cl.cfg.ids.clone();
         let mut push = |cl: &mut Cluster, c: Choice, out: &mut Vec<Event>| {
@@ -641,7 +732,22 @@ impl Sched {
                 push(cl, Choice::Restart { n: *n, applied: -1 }, out);
             }
         }
+        let mut probe_done = false;
         for round in 0..rounds {
+            if !probe_done && round >= rounds / 2 {
+                let leader = ids.iter().copied().find(|n| {
+                    cl.is_up(*n)
+                        && cl.nodes[cl.slot(*n)].app.outstanding.is_none()
+                        && cl.nodes[cl.slot(*n)].raw.as_ref().unwrap().raft.state == raft::StateRole::Leader
+                });
+                if let Some(n) = leader {
+                    let before = out.len();
+                    push(cl, Choice::Propose { n, p: "zz".into() }, out);
+                    if out.len() > before && out[out.len() - 1].rk == "ok" {
+                        probe_done = true;
+                    }
+                }
+            }
             // deterministic rotating timeouts
             for (k, n) in ids.iter().enumerate() {
                 let i = cl.slot(*n);
@@ -730,5 +836,6 @@ impl Sched {
                 }
             }
         }
+        probe_done
     }
 }
